@@ -89,7 +89,7 @@ def main():
             na.append(dict(property_id=pid, reason=NA.get(pid, PENDING_REASON)))
     man = dict(
         version=1,
-        setup_cmd="cd lean && lake build SpVerif driver",
+        setup_cmd="PYTHONPATH=harness /venv/bin/python -m spv.gen_tables && cd lean && lake build SpVerif driver",
         hooks=dict(
             guard="HOLOVIZ_SPATIALPANDAS_VERIF",
             enable="no hooks are compiled in: checks drive /repo through its public API (editable install, /venv/bin/python); the guard variable is reserved and set by ./check",
